@@ -3,6 +3,15 @@
 import json, os, re, shutil, glob
 SRC = '/tmp/seed-out'; DST = os.path.join(os.path.dirname(os.path.dirname(os.path.abspath(__file__))), 'seeded')
 NOTES = {
+ 'C12-14': 'strengthened: missed at first (no integer spelled with a leading zero among the hand-written literals); the literal leg gained leading zeros (read as decimal), the int64 boundary values, zero fractions and exponents with leading zeros',
+ 'C13-15': 'NOT caught, by decision: the change only affects a user jp.RemovableIndexed collection; the statement of C13 names simple and gen data (see C13-4)',
+ 'C14-13': 'strengthened: missed at first (the arithmetic trees had integer leaves, for which regrouping a chain of + or * is invisible, and the re-parsed text is identical); the same trees are now also run over decimal leaves for which + and * are not associative in float64',
+ 'C15-15': 'strengthened: missed at first (the float32 representative 1.5 reads the same in 32 and 64 bits); it is now float32(0.1)',
+ 'C16-13': 'strengthened: missed at first (no two types with one package path and one name); the history leg gained two types of the same name declared inside two functions',
+ 'C16-15': 'an encoder defect (the reflective by-value omitempty copy of the float64 writer formats with 32 bits): the round trip only shows it for long fractions; caught by C15 (float64 representative no float32 holds, OmitEmpty, by-value pass)',
+ 'C17-15': 'strengthened: missed by C17 at first (no boolean in any of its documents; C03 caught it: reader entry of oj.Tokenizer against the other front-ends); gens.PathData gained a document with true and false',
+ 'C18-13': 'the escape \\u0080 in gen.Parser only: not caught by C18 (no such escape among its rendered trees); caught by C02 (every single \\uXXXX escape through every front-end)',
+ 'C20-13': 'strengthened: missed at first (no two objects of one size that share a member and differ in the name of another); two such object literals added to the argument alphabet',
  'C01-15': 'strengthened: missed at first (the reader entry points look for the byte-order mark in local variables before the machine starts, so no state key shows it and the search merged EF BB xx with every other text); C01 gained the byte-order-mark family: the mark, its prefixes and near misses (one byte replaced) in front of short texts, []byte and every split of the first six bytes into reads, under the reader answers. This exposed a genuine defect (a mark after an empty first read was rejected; repaired)',
  'C03-13': 'strengthened: missed at first (no quoted string spelled like a literal that ends on the slow string path); strings spelled like other tokens (true, null, numbers, containers), plain and with one character as a \\uXXXX escape, added to the token texts of C03 and as a family of C02',
  'C03-14': 'the escape \\u0080 in oj.Tokenizer only: not caught by C03 (no such escape among its token texts); caught by C02 (every single \\uXXXX escape through every front-end, oj.Tokenizer among them since the fourth round)',
@@ -111,7 +120,7 @@ NOTES = {
  'C19-1': 'strengthened: missed at first; the perturbation catalogue gained rename (same member count, different key set)',
  'C20-1': 'strengthened: missed at first (each has no description in doc.go, asmref does not model it); an item-independence leg compares each(list) with the concatenation of each([item])',
 }
-ALSO = {'C16-3': 'C03', 'C10-2': 'C10, C02', 'C17-3': 'C02', 'C01-4': 'C07', 'C03-5': 'C07', 'C09-4': 'C07', 'C02-5': 'C07', 'C06-5': 'C07', 'C04-5': 'C07', 'C10-5': 'C07', 'C05-6': 'C12', 'C08-5': 'C08, C07', 'C17-5': 'C03', 'C17-6': 'C03', 'C12-6': 'C14', 'C14-5': 'C12', 'C16-4': 'C16, C15', 'C16-5': 'C15', 'C18-5': 'C18, C02, C03', 'C13-4': 'not caught (outside the stated data forms)', 'C02-7': 'C07', 'C02-8': 'C07', 'C02-9': 'C03', 'C03-7': 'C02', 'C05-9': 'C12', 'C06-7': 'C06, C03', 'C07-9': 'C15, C08', 'C08-9': 'C08, C07', 'C09-8': 'C01', 'C16-8': 'C15', 'C16-9': 'not caught (tagged embedded fields are outside the type alphabet)', 'C17-8': 'C02', 'C18-7': 'C02'}
+ALSO = {'C13-15': 'not caught (outside the stated data forms)', 'C16-3': 'C03', 'C10-2': 'C10, C02', 'C17-3': 'C02', 'C01-4': 'C07', 'C03-5': 'C07', 'C09-4': 'C07', 'C02-5': 'C07', 'C06-5': 'C07', 'C04-5': 'C07', 'C10-5': 'C07', 'C05-6': 'C12', 'C08-5': 'C08, C07', 'C17-5': 'C03', 'C17-6': 'C03', 'C12-6': 'C14', 'C14-5': 'C12', 'C16-4': 'C16, C15', 'C16-5': 'C15', 'C18-5': 'C18, C02, C03', 'C13-4': 'not caught (outside the stated data forms)', 'C02-7': 'C07', 'C02-8': 'C07', 'C02-9': 'C03', 'C03-7': 'C02', 'C05-9': 'C12', 'C06-7': 'C06, C03', 'C07-9': 'C15, C08', 'C08-9': 'C08, C07', 'C09-8': 'C01', 'C16-8': 'C15', 'C16-9': 'not caught (tagged embedded fields are outside the type alphabet)', 'C17-8': 'C02', 'C18-7': 'C02'}
 verify = {}
 for l in open(os.path.join(SRC, 'verify.log')):
     m = re.match(r'(C\d+-\d+): pkg=(\S+) suite_passes_with_change=(\S+) demo_fails_with_change=(\S+) demo_passes_without_change=(\S+) confirmed=(\d)', l)
